@@ -67,7 +67,9 @@ func c13Shapes(thorough bool) (all []logShape, chainAlphabet []logShape) {
 		"2p64+1": new(big.Int).Add(new(big.Int).Lsh(big.NewInt(1), 64), big.NewInt(1)), "2p200-1": new(big.Int).Sub(new(big.Int).Lsh(big.NewInt(1), 200), big.NewInt(1)), "1e30+7": ten30p7}
 	metas := map[string]metadata.Metadata{"nil": nil, "empty": {}, "ascii": {"k": "v", "a": "b"}, "unicode": {"clé": "välue ✓   \"q\" <&>"}, "emptykey": {"": ""}}
 	// "rawbytes": not valid UTF-8 - reachable through an Idempotency-Key header or a percent-encoded URL segment
-	keys := map[string]string{"none": "", "ascii": "key-1", "unicode": "ключ✓", "long": strings.Repeat("k", 255), "rawbytes": "a\xffb"}
+	keys := map[string]string{"none": "", "ascii": "key-1", "unicode": "ключ✓", "long": strings.Repeat("k", 255), "rawbytes": "a\xffb",
+		// longer than the column (varchar(255)), with a multi-byte character across byte 255 and across character 255
+		"long-utf8-byte255": strings.Repeat("k", 254) + "étail", "long-utf8-char255": strings.Repeat("é", 254) + "€tail"}
 	txids := map[string]*big.Int{"0": big.NewInt(0), "7": big.NewInt(7), "2p63": new(big.Int).Lsh(big.NewInt(1), 63)}
 	if thorough {
 		txids["2p64-1"] = new(big.Int).Sub(new(big.Int).Lsh(big.NewInt(1), 64), big.NewInt(1))
